@@ -1,4 +1,6 @@
 """C04 Quantification, restriction, apply-and-quantify, substitution: wiring and dualisation tables"""
+import esubst
+import etaut
 import eprep
 import ecache
 import eunits
@@ -38,6 +40,7 @@ def run(ctx):
     n = estep.run(ctx, F, kinds=("bdd", "bcdd"), parts=("quant", "restrict", "subst"))
     n += estep.run(ctx, F, kinds=("zbdd", "mtbdd"), parts=("restrict",))
     estep.check_zbdd_restrict_base(ctx, F)
+    etaut.check_restrict_base_loop(ctx, F)
     ctx.floor("E-TABLE.step", "situations of the recursive step (quant, apply_quant, restrict)", n, 2500)
     ctx.explain("E-TABLE.prep: substitute_prepare (BDD, BCDD) builds the table the substitution step reads: one iteration of its fill "
                 "loop stores Some(r) at var_to_level(v) (growing the table with None as needed, other entries untouched); one "
@@ -45,4 +48,8 @@ def run(ctx):
                 "variable's own function node(level; true, false) for an unmapped one.")
     n = eprep.run(ctx, F)
     ctx.floor("E-TABLE.prep", "interpreted loop iterations", n, 14)
+    ctx.explain("E-CACHE.substid: substitute memoises under (Substitute, f, substitution id): new_substitution_id hands every "
+                "number out once (one atomic read-modify-write on a counter wider than the id, range-checked), and the "
+                "Substitution holders return the id they were given.")
+    esubst.run(ctx, F)
     ctx.not_decided = "the induction over the diagram, behaviour under memory exhaustion"
